@@ -82,6 +82,7 @@ uint64_t sa_arena_offset(int idx, const void* p);
 void sa_check_integrity();
 void sa_set_max_request(uint64_t n);   // widen the single-request cap for the CURRENT task (growth marathons); 0 restores the run's knob
 uint64_t sa_max_request();
+void sa_set_request_limit(uint64_t n);  // CURRENT task: refuse every request once a window has made this many (0 = no limit)
 void sa_set_realloc_limit(uint64_t n);  // CURRENT task: refuse resizes once a window has made this many (0 = no limit); keeps a quadratic growth policy from running for hours             // the cap in force for the current task
 
 // fault accounting for evidence: fired counts per kind since process start
